@@ -474,7 +474,16 @@ type lemmaSpec struct {
 	pkg   string
 }
 
+type immDecl struct {
+	pkg   string
+	typ   string
+	field string
+	props []string
+	line  specLine
+}
+
 type SpecSet struct {
+	immutables []immDecl
 	funcs  map[string]*FuncSpec // key pkg + "#" + name
 	order  []*FuncSpec
 	specFn map[string]map[string]*specFunc // per package
@@ -510,7 +519,7 @@ func splitLabel(s string) (label, rest string) {
 
 var clauseKeywords = map[string]bool{"func": true, "property": true, "ghost": true, "requires": true, "ensures": true, "loop": true,
 	"modifies": true, "reads": true, "safety": true, "nopanic": true, "arith": true, "pure": true, "slots": true, "kinds": true, "spec": true,
-	"lemma": true, "axiom": true, "assumed": true, "cover": true, "timeout": true, "macro": true}
+	"lemma": true, "axiom": true, "assumed": true, "cover": true, "timeout": true, "macro": true, "immutable": true}
 
 // parseContracts parses the //@ lines of one package.
 func (ss *SpecSet) parseContracts(pkg string, lines []specLine) {
@@ -572,8 +581,16 @@ func (ss *SpecSet) parseContracts(pkg string, lines []specLine) {
 		switch kw {
 		case "func":
 			name := strings.Fields(rest)[0]
-			cur = &FuncSpec{pkg: pkg, name: name, loops: map[int]*loopSpec{}, loopsByName: map[string]*loopSpec{}, line: l}
-			ss.funcs[pkg+"#"+strings.NewReplacer("(", "", ")", "", "*", "").Replace(name)] = cur
+			fpkg := pkg
+			assumed := false
+			if pkg == "deps" && len(strings.Fields(rest)) >= 2 {
+				// deps.spec: func <package path> <Name>: an assumed contract on a dependency
+				fpkg = strings.Fields(rest)[0]
+				name = strings.Fields(rest)[1]
+				assumed = true
+			}
+			cur = &FuncSpec{pkg: fpkg, name: name, loops: map[int]*loopSpec{}, loopsByName: map[string]*loopSpec{}, line: l, assumeOnly: assumed}
+			ss.funcs[fpkg+"#"+strings.NewReplacer("(", "", ")", "", "*", "").Replace(name)] = cur
 			ss.order = append(ss.order, cur)
 			continue
 		case "spec":
@@ -582,6 +599,16 @@ func (ss *SpecSet) parseContracts(pkg string, lines []specLine) {
 				fail(l, "%v", err)
 			} else {
 				ss.specFn[pkg][sf.name] = sf
+			}
+			continue
+		case "immutable":
+			for _, d := range strings.Fields(strings.ReplaceAll(rest, ",", " ")) {
+				i := strings.LastIndex(d, ".")
+				if i <= 0 {
+					fail(l, "immutable Type.field")
+					continue
+				}
+				ss.immutables = append(ss.immutables, immDecl{pkg: pkg, typ: d[:i], field: d[i+1:], props: curProps, line: l})
 			}
 			continue
 		case "lemma", "axiom":
@@ -758,10 +785,10 @@ func parseSlotClause(mode, rest string) (*slotClause, error) {
 // spec name(a T, b U) R = expr
 func parseSpecFunc(rest string) (*specFunc, error) {
 	eqi := strings.Index(rest, " = ")
-	if eqi < 0 {
-		return nil, fmt.Errorf("spec function needs ' = '")
+	head, body := rest, ""
+	if eqi >= 0 {
+		head, body = rest[:eqi], rest[eqi+3:]
 	}
-	head, body := rest[:eqi], rest[eqi+3:]
 	toks, err := lexSpec(head)
 	if err != nil {
 		return nil, err
@@ -797,6 +824,9 @@ func parseSpecFunc(rest string) (*specFunc, error) {
 	}()
 	if perr != nil {
 		return nil, perr
+	}
+	if body == "" {
+		return sf, nil // uninterpreted
 	}
 	sf.body, err = parseSpecExpr(body)
 	return sf, err
@@ -883,6 +913,9 @@ func expandMacros(text string, macros map[string]*macroDef) string {
 							argStart = j + 1
 						}
 					}
+				}
+				if len(args) == 1 && args[0] == "" {
+					args = nil
 				}
 				if depth != 0 || len(args) != len(md.params) {
 					from = i + 1
